@@ -226,6 +226,9 @@ func genCase(t *rapid.T) tcase {
 		}
 	}
 	c.prime = lm.GenPrime(genOpts).Draw(t, "prime")
+	if rapid.IntRange(0, 24).Draw(t, "deepChain") == 0 {
+		c.chain = lm.GenDeepChain(genOpts).Draw(t, "deep") // many open groups
+	}
 	if len(c.chain) > 0 {
 		c.decoys = lm.GenDecoys(genOpts, len(c.chain)).Draw(t, "decoys")
 	}
